@@ -292,9 +292,21 @@ def run_case(idx, rng, tier, rep):
                 continue
             sid = rng.choice(c)
             steps.append(('E-end', sid))
-            r = t.call('end_stream', sid) if rng.random() < 0.5 else t.call('send_data', sid, b'e', end_stream=True)
+            how = rng.randrange(4)
+            if how == 0:
+                r = t.call('end_stream', sid)
+            elif how == 1:
+                r = t.call('send_data', sid, b'e', end_stream=True)
+            else:
+                r = t.call('send_data', sid, rng.choice([b'', b'e', b'end']), end_stream=True, pad_length=rng.choice([0, 0, 7, 255]))
             if r.exc is not None:
                 unexpected(r, 'end_stream')
+                break
+            # the count follows what went on the wire: the peer counts the stream as half-closed only if it was told so
+            rep.count('stream_endings_checked_on_the_wire')
+            if not any(f.stream_id == sid and f.type in (wire.DATA, wire.HEADERS) and f.end_stream for f in r.frames):
+                fail('C10:stream-counted-as-ended-but-END_STREAM-not-sent',
+                     'the call ending stream %d succeeded and emitted %s: no END_STREAM among them' % (sid, [f.brief() for f in r.frames]))
                 break
             sh.e_end(sid)
         elif op == 'end_p':
